@@ -17,7 +17,9 @@ pub fn check(tier: Tier) -> Check {
             (Tier::Thorough, 1) => 6,
             (Tier::Thorough, _) => 5,
         };
-        parts.push(Part::new("C14/drop", json!({"depth": d}), k, tier.pick(40, 600)));
+        parts.push(Part::new("C14/drop", json!({"depth": d, "r": 0}), k, tier.pick(40, 600)));
+        // Receive Maximum 1: locally refused publishes are among the pending operations
+        parts.push(Part::new("C14/drop", json!({"depth": d, "r": 1}), k, tier.pick(40, 600)));
     }
     Check {
         also_rel: false,
@@ -31,14 +33,18 @@ pub fn check(tier: Tier) -> Check {
 
 pub fn scenario(name: &str, params: &Value) -> Scenario {
     let depth = params["depth"].as_u64().unwrap_or(4) as usize;
+    let r = params["r"].as_u64().unwrap_or(0) as u16;
     let params = params.clone();
     let name = name.to_string();
     Box::new(move |chz, ex| {
         let mut sys = Sys::new("C14", &name, chz);
         sys.params = params.clone();
         sys.m.check_client_acks = false;
-        sys.bring_up(vec![]);
-        let specs = std_ops();
+        sys.bring_up(if r == 0 { vec![] } else { receive_max(r) });
+        let mut specs = std_ops();
+        if r != 0 {
+            specs.push(OpSpec::Publish(PublishSpec::simple(1, "t/c", b"three")));
+        }
         let devs = |s: &Sys| {
             let mut d = sched_deviations(s, false, true);
             if s.m.ctx == CtxSt::Running && outstanding(&s.m).len() < 3 {
@@ -49,7 +55,7 @@ pub fn scenario(name: &str, params: &Value) -> Scenario {
         let evs = |s: &Sys| {
             let mut e = vec![];
             if s.m.ctx == CtxSt::Running {
-                e.extend(start_events(s, &specs, 3, 1));
+                e.extend(start_events(s, &specs, 3, if r != 0 { 3 } else { 1 }));
                 e.extend(broker_acks(s, true, false));
                 for i in 0..s.m.ops.len() {
                     if let (OpSpec::Subscribe(_), St::Done, Some(sb)) =
